@@ -7,6 +7,9 @@ pub fn parse_statement(
     let trimmed = line.content.trim();
     // 1-based line number for error messages; captured before any sub-parser advances the index.
     let ln = *line_index + 1;
+    // Choice bodies and multi-line conditionals and sequences come back here for the
+    // statements inside them.
+    let _level = crate::nesting::enter().map_err(|e| e.with_line(ln))?;
 
     if trimmed.is_empty() || trimmed.starts_with("//") {
         *line_index += 1;
